@@ -189,7 +189,7 @@ func matchJSONValue(v GVal, n jnode) string {
 		if !isStr(n, fixedTime.Add(time.Duration(v.I)).Format(time.RFC3339Nano)) {
 			return bad("time differs")
 		}
-	case "struct", "map":
+	case "struct", "map", "nilptr":
 		if !isStr(n, fixUTF8(fmt.Sprintf("{{%v}}", v.Go()))) {
 			return bad("fallback text differs")
 		}
